@@ -26,6 +26,22 @@ pub trait Fam: Serialize + for<'de> Deserialize<'de> + PartialEq + Debug + Clone
     fn shape(&self) -> Option<Shape> {
         None
     }
+    /// Values that carry the string `s` in each payload position of this type where `s` is inside
+    /// the documented round-trip domain of that position.
+    fn payload(s: &str) -> Vec<Self> {
+        Self::payload2(s, true)
+    }
+    /// `strict == false`: also outside the round-trip domain (leading/trailing blanks, empty list
+    /// items) — used by C13, whose oracle is well-formedness, not equality.
+    fn payload2(_s: &str, _strict: bool) -> Vec<Self> {
+        Vec::new()
+    }
+}
+
+/// no leading / trailing XML white space (the documented exclusion for element and text strings)
+pub fn trimmed(s: &str) -> bool {
+    let ws = |c: char| matches!(c, ' ' | '\t' | '\r' | '\n');
+    !s.starts_with(ws) && !s.ends_with(ws)
 }
 
 /// Strings for element / text positions: no leading or trailing XML white space (documented exclusion).
@@ -104,6 +120,14 @@ impl Fam for Attrs {
         }
         v
     }
+    fn payload2(s: &str, strict: bool) -> Vec<Self> {
+        let mut v = vec![Attrs { a: s.to_string(), b: 1, c: true, d: 'x' }];
+        let mut ch = s.chars();
+        if let (Some(c), None) = (ch.next(), ch.next()) {
+            v.push(Attrs { a: "a".into(), b: 1, c: false, d: c });
+        }
+        v
+    }
 }
 
 #[derive(Serialize, Deserialize, PartialEq, Debug, Clone)]
@@ -154,6 +178,19 @@ impl Fam for Children {
         }
         v
     }
+    fn payload2(s: &str, strict: bool) -> Vec<Self> {
+        let mut v = Vec::new();
+        if (!strict || trimmed(s)) {
+            v.push(Children { a: s.to_string(), b: 0, c: 0.5, d: true, e: 'x' });
+        }
+        let mut ch = s.chars();
+        if let (Some(c), None) = (ch.next(), ch.next()) {
+            if (!strict || trimmed(s)) {
+                v.push(Children { a: "a".into(), b: 0, c: 0.5, d: true, e: c });
+            }
+        }
+        v
+    }
 }
 
 /// `$text` with `#[serde(default)]`: an empty text is representable
@@ -177,6 +214,13 @@ impl Fam for TextDefault {
         }
         v
     }
+    fn payload2(s: &str, strict: bool) -> Vec<Self> {
+        if (!strict || trimmed(s)) {
+            vec![TextDefault { k: s.to_string(), text: s.to_string() }]
+        } else {
+            vec![]
+        }
+    }
 }
 
 /// `$text` without default
@@ -191,6 +235,13 @@ impl Fam for TextPlain {
         let mut strs = text_strings(level);
         strs.push(String::new());
         strs.into_iter().map(|text| TextPlain { text }).collect()
+    }
+    fn payload2(s: &str, strict: bool) -> Vec<Self> {
+        if (!strict || trimmed(s)) {
+            vec![TextPlain { text: s.to_string() }]
+        } else {
+            vec![]
+        }
     }
     fn shape(&self) -> Option<Shape> {
         if self.text.is_empty() {
@@ -215,6 +266,13 @@ impl Fam for ValueString {
         let mut strs = text_strings(level);
         strs.push(String::new());
         strs.into_iter().map(|value| ValueString { k: 1, value }).collect()
+    }
+    fn payload2(s: &str, strict: bool) -> Vec<Self> {
+        if (!strict || trimmed(s)) {
+            vec![ValueString { k: 1, value: s.to_string() }]
+        } else {
+            vec![]
+        }
     }
     fn shape(&self) -> Option<Shape> {
         if self.value.is_empty() {
@@ -283,6 +341,13 @@ impl Fam for VecElems {
         }
         v
     }
+    fn payload2(s: &str, strict: bool) -> Vec<Self> {
+        if (!strict || trimmed(s)) {
+            vec![VecElems { item: vec![s.to_string(), "x".into(), s.to_string()], n: vec![] }]
+        } else {
+            vec![]
+        }
+    }
 }
 
 #[derive(Serialize, Deserialize, PartialEq, Debug, Clone)]
@@ -317,6 +382,12 @@ impl Fam for TextList {
         items.push("a b".to_string());
         lists(&items, if level >= 1 { 3 } else { 2 }).into_iter().map(|items| TextList { items }).collect()
     }
+    fn payload2(s: &str, strict: bool) -> Vec<Self> {
+        if (strict && s.is_empty()) {
+            return vec![];
+        }
+        vec![TextList { items: vec![s.to_string()] }, TextList { items: vec!["x".into(), s.to_string(), "y".into()] }]
+    }
     fn shape(&self) -> Option<Shape> {
         if self.items.iter().any(|i| i.chars().any(|c| c.is_ascii_whitespace())) {
             Some(Shape::F6)
@@ -340,6 +411,7 @@ impl Fam for AttrList {
         let mut items = list_items(level);
         items.push("a b".to_string());
         items.push("\t".to_string());
+        items.push("\r\n".to_string());
         let mut v = Vec::new();
         for a in lists(&items, if level >= 1 { 3 } else { 2 }) {
             for n in [vec![], vec![-128], vec![1, 2, 127]] {
@@ -347,6 +419,12 @@ impl Fam for AttrList {
             }
         }
         v
+    }
+    fn payload2(s: &str, strict: bool) -> Vec<Self> {
+        if (strict && s.is_empty()) {
+            return vec![];
+        }
+        vec![AttrList { a: vec![s.to_string()], n: vec![] }, AttrList { a: vec!["x".into(), s.to_string(), "y".into()], n: vec![1] }]
     }
 }
 
@@ -424,6 +502,17 @@ impl Fam for OneChoice {
     fn values(level: usize) -> Vec<Self> {
         choices(level, true).into_iter().map(|c| OneChoice { k: "k".into(), c }).collect()
     }
+    fn payload2(s: &str, strict: bool) -> Vec<Self> {
+        let mut v = vec![OneChoice { k: s.to_string(), c: Choice::Unit }];
+        if (!strict || trimmed(s)) {
+            v.push(OneChoice { k: "k".into(), c: Choice::Newtype(s.to_string()) });
+            v.push(OneChoice { k: "k".into(), c: Choice::Struct { a: s.to_string(), b: s.to_string() } });
+            v.push(OneChoice { k: "k".into(), c: Choice::Text(s.to_string()) });
+        } else {
+            v.push(OneChoice { k: "k".into(), c: Choice::Struct { a: s.to_string(), b: "b".into() } });
+        }
+        v
+    }
     fn shape(&self) -> Option<Shape> {
         match &self.c {
             Choice::Text(t) if t.is_empty() => Some(Shape::F5),
@@ -448,6 +537,15 @@ impl Fam for Mixed {
             .filter(|l| !l.windows(2).any(|w| matches!((&w[0], &w[1]), (Choice::Text(_), Choice::Text(_)))))
             .map(|items| Mixed { items })
             .collect()
+    }
+    fn payload2(s: &str, strict: bool) -> Vec<Self> {
+        if (strict && !trimmed(s)) {
+            return vec![];
+        }
+        vec![
+            Mixed { items: vec![Choice::Unit, Choice::Text(s.to_string()), Choice::Newtype(s.to_string())] },
+            Mixed { items: vec![Choice::Text(s.to_string()), Choice::Unit, Choice::Text(s.to_string())] },
+        ]
     }
     fn shape(&self) -> Option<Shape> {
         if self.items.iter().any(|c| matches!(c, Choice::Text(t) if t.is_empty())) {
@@ -519,6 +617,14 @@ impl Fam for MapHolder {
         }
         v
     }
+    fn payload2(s: &str, strict: bool) -> Vec<Self> {
+        if (strict && !trimmed(s)) {
+            return vec![];
+        }
+        let mut m = BTreeMap::new();
+        m.insert("k".to_string(), s.to_string());
+        vec![MapHolder { m }]
+    }
 }
 
 #[derive(Serialize, Deserialize, PartialEq, Debug, Clone)]
@@ -529,6 +635,13 @@ impl Fam for NewtypeStr {
         let mut s = text_strings(level);
         s.push(String::new());
         s.into_iter().map(NewtypeStr).collect()
+    }
+    fn payload2(s: &str, strict: bool) -> Vec<Self> {
+        if (!strict || trimmed(s)) {
+            vec![NewtypeStr(s.to_string())]
+        } else {
+            vec![]
+        }
     }
 }
 
@@ -609,6 +722,13 @@ impl Fam for TopEnum {
             v.push(TopEnum::D(i));
         }
         v
+    }
+    fn payload2(s: &str, strict: bool) -> Vec<Self> {
+        if (!strict || trimmed(s)) {
+            vec![TopEnum::B(s.to_string()), TopEnum::C { x: 1, y: s.to_string() }]
+        } else {
+            vec![]
+        }
     }
 }
 
